@@ -88,16 +88,12 @@ def configs(tier):
         combos = [('flat', 2, 'int16', 'int', 'slice'), ('array', 1, 'float32', 'float', 'slice'),
                   ('flat', 2, 'float32', 'int', 'int'), ('array', 1, 'int16', 'float', 'list2')]
     else:
-        combos = []
-        for backend, K in [('flat', 2), ('array', 1), ('npy', 1), ('cbin', 1)]:
-            for dtype in ['int16', 'float32', 'float64']:
-                for sk in ('int', 'float'):
-                    for item in ('int', 'slice', 'list2'):
-                        if backend == 'cbin' and item == 'list2':
-                            continue
-                        if backend in ('npy', 'cbin') and (dtype == 'float64' or item == 'int'):
-                            continue
-                        combos.append((backend, K, dtype, sk, item))
+        combos = [('flat', 2, 'int16', 'int', 'slice'), ('flat', 2, 'float32', 'float', 'slice'),
+                  ('flat', 2, 'float64', 'int', 'int'), ('flat', 2, 'int16', 'float', 'list2'),
+                  ('array', 1, 'float32', 'float', 'slice'), ('array', 1, 'int16', 'int', 'int'),
+                  ('array', 1, 'float64', 'float', 'list2'), ('npy', 1, 'int16', 'int', 'slice'),
+                  ('npy', 1, 'float32', 'float', 'list2'), ('cbin', 1, 'int16', 'float', 'slice'),
+                  ('cbin', 1, 'float32', 'int', 'slice')]
     D = 2 if quick else 3
     for backend, K, dtype, sk, item in combos:
         for first in range(len(OPS)):
